@@ -49,6 +49,31 @@ pub fn compile_verdict(rt: &Runtime<NoCtx>, src: &str) -> Verdict {
     }
 }
 
+/// Parse and type check only (the control programs: whether they type check is all
+/// that matters, and lowering and code generation are the expensive stages).
+pub fn typecheck_verdict(rt: &Runtime<NoCtx>, src: &str) -> Verdict {
+    let r = catch(|| {
+        let tree = FileTree::test_file("gen.roto", src, 0);
+        let checked = match tree.parse() {
+            Ok(parsed) => parsed.typecheck(rt).map(|_| ()),
+            Err(rep) => Err(rep),
+        };
+        match checked {
+            Ok(()) => Verdict::Compiled,
+            Err(rep) => {
+                let kinds = roto::verif::report_kinds(&rep);
+                let mut s = String::new();
+                let _ = rep.write(&mut s, false);
+                Verdict::Rejected(kinds, s)
+            }
+        }
+    });
+    match r {
+        Ok(v) => v,
+        Err(p) => Verdict::Panicked(p),
+    }
+}
+
 pub fn gen_base(rng: &mut Rng) -> (crate::rg::ast::Program, Vec<String>) {
     let mut cfg = match rng.below(3) {
         0 => Cfg::scalar(),
@@ -86,22 +111,59 @@ impl Family for IllTyped {
                 return out;
             }
         }
-        let per_kind = if args.thorough() { 6 } else { 3 };
+        let per_kind: usize = if args.thorough() { 6 } else { 3 };
         let mut samples = Vec::new();
         let all: Vec<&str> = EDIT_KINDS.iter().chain(ITEM_EDITS.iter()).copied().collect();
         for kind in all {
+            // `--edits <prefix>`: restrict the edit kinds (for looking at one class)
+            if args.opt("edits").is_some_and(|o| !kind.starts_with(o)) {
+                continue;
+            }
             let n = mutate::sites(&prog, kind);
             if n == 0 {
                 continue;
             }
-            // every site when there are few, else a seeded sample of sites
+            // every site when there are few, else a seeded sample of sites. The sibling
+            // scope kinds are ten kinds of one rule: fewer sites of each per program.
+            let per_kind = if kind.starts_with("scope-") { per_kind.div_ceil(3) } else if mutate::has_control(kind) { per_kind - per_kind / 3 } else { per_kind };
             let picks: Vec<usize> = if n <= per_kind { (0..n).collect() } else { (0..per_kind).map(|_| rng.usize(n)).collect() };
             for site in picks {
-                let Some(m) = mutate::apply(&prog, kind, site, rng.next()) else { continue };
+                let Some(mutant) = mutate::apply_full(&prog, kind, site, rng.next()) else { continue };
+                let m = mutant.prog;
                 let src = print::print_program(&m, None);
+                // Edit kinds that move or add material (a use of a name, a match arm) come
+                // with a control: the same material placed where the typing rule allows it.
+                // The mutant is judged only if the control compiles, so that the one
+                // difference between an accepted and a rejected program is the rule.
+                // (every second time: the control costs as much as the mutant)
+                let with_control = mutate::has_control(kind) && rng.bool();
+                if !with_control {
+                    // judged without its control
+                } else if let Some(c) = &mutant.control {
+                    let csrc = print::print_program(c, None);
+                    out.evals += 1;
+                    match typecheck_verdict(&self.rt, &csrc) {
+                        Verdict::Compiled => out.tags.push(format!("control-typechecked:{kind}")),
+                        Verdict::Rejected(_, text) => {
+                            out.tags.push(format!("control-rejected:{kind}"));
+                            out.count("control_rejected", 1);
+                            if samples.len() < 2 {
+                                samples.push(J::obj().set("edit", kind).set("control_rejected", text).set("control", csrc));
+                            }
+                            continue;
+                        }
+                        Verdict::Panicked(p) => {
+                            out.tags.push(format!("control-panicked:{kind}:{}", panic_sig(&p)));
+                            continue;
+                        }
+                    }
+                } else if mutate::has_control(kind) {
+                    continue;
+                }
                 out.evals += 1;
                 out.events += 1;
                 out.tags.push(format!("edit:{kind}"));
+                out.tags.extend(mutant.tags.iter().cloned());
                 match compile_verdict(&self.rt, &src) {
                     Verdict::Rejected(kinds, text) => {
                         if kinds.iter().all(|k| *k == "type") && !kinds.is_empty() {
@@ -131,7 +193,7 @@ impl Family for IllTyped {
                         );
                     }
                 }
-                if samples.len() < 2 {
+                if samples.len() < 2 || args.opt("edits").is_some() {
                     samples.push(J::obj().set("edit", kind).set("site", site as u64).set("mutant", src));
                 }
             }
